@@ -6,17 +6,27 @@
   _mod_load_dynamic/_mod_register, _cmp_f, the two initialisation passes; list.c's list_sort as
   written; opt.c's opt_register).  The file system and the dynamic loader are parameters.
 
-  Three forms of _mod_register/_cmp_f are covered:
+  The forms of _mod_register / _cmp_f / _mod_load_dynamic that are covered:
+    `Now.loadAll`                THE CODE AS IT IS NOW (/repo HEAD fde0027; what `pdshmodel mod model` runs): personality
+                                 first, ties broken by type / file name, priorities COMPARED (no arithmetic: every int),
+                                 a directory maps NAMES to OBJECTS (`oid`) and a name whose object is already in the
+                                 module list is skipped.  `Now.loadDirG_eq_of_distinct_objects` + `Now.loadDirG_cmp`:
+                                 on names that denote distinct objects it IS `Tie.loadDir` on the rewritten directory,
+                                 for all priorities -- so every theorem below speaks about it
+    `Now.loadAllRename`          ... with findings/C17-sameobj-tie.patch (F17-SAMEOBJ-TIE, open)
     `loadDir` / `loadAll`        the pinned code (personality tested after the eviction; F17-PERS, F17-TIE)
     `loadAllPF`                  the code since commit 59829e8 (personality first): `loadAll` on the
                                  rewritten directory, justified by `Mod.registerPF_eq`
-    `Tie.loadDir` / `Tie.loadAllPF`  the proposed repair of F17-TIE (findings/C17.patch)
+    `Tie.loadDir` / `Tie.loadAllPF`  the code since c80ee4f (F17-TIE repaired), priorities subtracted in ℤ
+    `PrioWrap.cmpFWrap`          _cmp_f before 930abcb (32-bit subtraction; F17-PRIO-OVERFLOW)
   All theorems below that speak about `loadDir e d` hold for every directory, hence also for the
   rewritten one; `perm_invariant_current` and `perm_invariant_tiefix` state determinism for the newer forms.
 
   NOT proved here: that the C code equals the model (correspondence check), anything about dlopen
-  itself, the MAXPATHLEN guard of the ancestor walk.  Int overflow in _cmp_f: `priorities_in_range_sort_as_modelled`
-  (no effect below 2^30) and `prio_overflow_witness` (finding F17-PRIO-OVERFLOW beyond).
+  itself, the MAXPATHLEN guard of the ancestor walk (a module directory nested so deep that `dir/../../..` no longer
+  fits MAXPATHLEN: _path_permissions_ok gives up and nothing is loaded -- the safe side), determinism for directories in
+  which one object has several names AND an equal-priority duplicate lies between them (false of the code:
+  `sameobj_tie_witness`, finding F17-SAMEOBJ-TIE; true again with `rename`, not proved in general).
 
   THE LOADER'S I/O, exactly.  The model takes the world as parameters of `Env`/`Dir`/`File`; the
   correspondence check runs the real binary under harness/preload_shim.c, which makes the world BE
@@ -40,17 +50,16 @@
       the kernel's path resolution      : `dir/..` chains reach "/" (st_ino / st_dev of the real
                                            directories decide where the ancestor walk stops)
       getpwuid (local user), getcwd / chdir in the error path, glibc getopt (for option dispatch)
-    NOT MODELLED: ACLs, races between stat and dlopen (TOCTOU), MAXPATHLEN, int overflow of priorities.
+    NOT MODELLED: ACLs, races between stat and dlopen (TOCTOU), MAXPATHLEN.
       st_gid / group permission bits: mod.c does not look at them and neither does the model -- stated as
       `decisions_ignore_other_bits`.  Symbolic links: stat follows them, so a linked module file carries
       the attributes of its target and a PDSH_MODULE_DIR that names a link is judged by the ancestors of
       the link's target (the check builds both situations).  opendir failing after the path test passed
       and an empty directory are the same thing for the loader -- no entry, exit 1 -- and are run as the
       directory without entries.  ONE OBJECT UNDER TWO NAMES (symbolic or hard link inside the directory):
-      the model's files are distinct objects; the real loader gets the same handle and the same
-      pdsh_module_info for both names and, as the code stands, clears type and name of the shared descriptor
-      when it drops one of them (finding F17-SAMEOBJ: SIGSEGV; findings/C17-sameobj.patch skips the second
-      name -- the check then feeds the model the second name as an object that registers nothing).
+      MODELLED (Mod/Now.lean): the directory maps names to objects, the loader gets the same handle for
+      both names and, since fde0027, skips a name whose handle is in the module list (`no_object_registered_twice`;
+      before: F17-SAMEOBJ, SIGSEGV).  The check builds such directories (pool links s01, a19, a20) in every order.
 
   clause of the property text                           theorem(s)
   ----------------------------------------------------  ------------------------------------------------------
@@ -68,7 +77,11 @@
   nor below an insecure ancestor                        insecure_path_loads_nothing, path_decision, unknown_owner_loads_nothing
   root and set-uid runs ignore PDSH_MODULE_DIR          root_ignores_env, dir_decision
   all clauses at once, code as it is now                spec_sound
-  "for all priorities"                                   priorities_in_range_sort_as_modelled, prio_overflow_witness
+  "for all priorities"                                   priority_order_all_priorities, loader_compares_as_modelled;
+                                                           the code before 930abcb: priorities_in_range_sort_as_modelled,
+                                                           prio_overflow_witness_unchanged
+  one object under several names                        no_object_registered_twice, contents_determine_outcome_now
+                                                           (distinct objects); sameobj_tie_witness (F17-SAMEOBJ-TIE, open)
 -/
 import PdshVerif.Mod.Determinism
 import PdshVerif.Mod.TieLemmas
